@@ -2,6 +2,7 @@ package checks
 
 import (
 	"fmt"
+	"regexp"
 	"strings"
 	"unicode/utf16"
 
@@ -122,6 +123,9 @@ func nearMisses(k string) []string {
 	return out
 }
 
+// a filter string literal drops the backslash of every escape (jsonpath_parser.go unescape)
+var c16LiteralRegex = regexp.MustCompile(`\\(.)`)
+
 type c16Job struct {
 	keys []string
 	env  *impl.Env
@@ -175,6 +179,22 @@ func c16Cases(k string) []c16Case {
 				m2[s] = target
 			}
 			out = append(out, c16Case{"filter" + sfx, name, "$[?(@" + frag + "=='TARGET')]", []interface{}{m2, m1}, []interface{}{m1}})
+			// the same raw text as a quoted name and as a filter string literal in one path (the two
+			// are decoded by different rules: a literal only drops the backslashes), both orders
+			if !sib && frag[0] == '[' && strings.Contains(frag, `\`) {
+				q, body := frag[1:2], frag[2:len(frag)-2]
+				lit := c16LiteralRegex.ReplaceAllString(body, "$1")
+				l1, l2 := map[string]interface{}{k: lit}, map[string]interface{}{}
+				for _, s := range nearMisses(k) {
+					l2[s] = lit
+				}
+				members := []interface{}{l2, l1}
+				if lit != k {
+					members = append(members, map[string]interface{}{k: k}) // holds the NAME decoding: not selected
+				}
+				out = append(out, c16Case{"filter-literal", name, "$[?(@" + frag + "==" + q + body + q + ")]", members, []interface{}{l1}})
+				out = append(out, c16Case{"literal-filter", name, "$[?(" + q + body + q + "==@" + frag + ")]", members, []interface{}{l1}})
+			}
 			// after another step, followed by another step
 			out = append(out, c16Case{"middle" + sfx, name, "$.w" + frag + "[0]", map[string]interface{}{"w": func() map[string]interface{} {
 				m := mk(sib)
@@ -270,7 +290,7 @@ func init() {
 	run.Register(&run.Check{
 		ID:    "C16",
 		Level: "exploration",
-		Rule:  "every (key, spelling, position, with/without near-miss siblings) is a distinct case and non-trivial (the key exists, exactly its value must come back); spellings: ['k'], [\"k\"] with minimal JSON escaping, both with every character as \\uXXXX, dot notation with every symbol escaped (non-empty keys without control characters), lone-surrogate escapes for U+FFFD; positions: root, after .., filter operand, between two steps",
+		Rule:  "every (key, spelling, position, with/without near-miss siblings) is a distinct case and non-trivial (the key exists, exactly its value must come back); spellings: ['k'], [\"k\"] with minimal JSON escaping, both with every character as \\uXXXX, dot notation with every symbol escaped (non-empty keys without control characters), lone-surrogate escapes for U+FFFD; positions: root, after .., filter operand, between two steps, and (spellings with a backslash) compared inside a filter with a string literal of the same raw text, both orders",
 		Assumptions: []string{
 			"oracle = direct Go map lookup; keys are valid UTF-8 (a decoded JSON document cannot hold anything else)",
 			"near-miss siblings: the key with/without each escape character (added/removed backslashes, quotes, literal vs real newline, \\u0041 vs A, trailing/leading space, case, decomposed accent)",
